@@ -35,11 +35,21 @@ from harness.impl import pyval
 RULE = ('read: fixed table of every shape the property names (length prefixes 10^k..10^30 and around 2^31/2^32/2^63, '
         'digit strings around the 4300 limit, creation date / private / info / pieces / announce of every wrong type, '
         'nesting 10..5000 around the measured recursion threshold under three recursion limits, duplicate / unsorted / '
-        'non-UTF-8 keys, -0, leading zeros, trailing data) + exhaustive strings over {d,l,e,i,1,0,:,-,a} up to length 4 '
+        'non-UTF-8 keys, -0, leading zeros, trailing data) + field matrix: every field validate() or a getter looks at '
+        '(announce, announce-list and its tiers/items, url-list, httpseeds, comment, created by, creation date, encoding, info, '
+        'private, source, name, md5sum, piece length, length, pieces, files, files[i] and its md5sum / path / path components / '
+        'length, unknown keys) x values of every decoded type and hostile text (non-ASCII letters, full-width / Arabic-Indic / '
+        'superscript digits, NUL, newlines, bidi/BOM/zero-width, astral, empty, whitespace, 300..70000 characters, path-like, '
+        'MD5 near misses, URL-like with hostile ports and hosts) x single-/multi-file x minimal/full layout + random MD5 near '
+        'misses + exhaustive strings over {d,l,e,i,1,0,:,-,a} up to length 4 '
         '(6 thorough) + truncation of seed torrents at every offset + seeded fuzz (bit flips, structure mutations, wrong '
-        'types, spliced length prefixes, deep values, slice delete/dup/reverse, random bytes), each with validate on/off '
-        'and through bytes / BytesIO / Torrent.read(file); magnets: fixed table (authority forms, xt variants incl. '
-        'IGNORECASE specials, xl numerals, good/bad URLs in tr/ws/xs/as) + grammar + mutations + random. '
+        'types, hostile value at a random place, spliced length prefixes, deep values, slice delete/dup/reverse, random bytes), '
+        'each with validate on/off and through bytes / BytesIO / Torrent.read(file), followed by validate(), dump(), '
+        'dump(validate=False), infohash, magnet() on the returned torrent; magnets: fixed table (authority forms, xt variants incl. '
+        'IGNORECASE specials, xl numerals, good/bad URLs in tr/ws/xs/as) + size dimensions (0, 1, 2, 10, 100, 999..1002, 3000 '
+        '[thorough: ..20000] `&`-separated fields in 24 shapes: blank, without "=", repeated / distinct tr ws dn kt xl xt x_ unknown, '
+        '`;`, mixed; single values of 4300..100000 characters; 40 percent-escapes valid/invalid/non-UTF-8/encoded separators in '
+        '24 positions incl. parameter names) + grammar (2 % with ~100..2500 fields) + mutations + random. '
         'non-trivial = read: the decoder does not stop with a plain DecodingError (the input decodes, or a primitive '
         'raises ValueError / OverflowError / MemoryError); magnet: urlparse gave scheme "magnet"; cost points always; '
         'distinct = distinct (input, validate, how, recursion limit) resp. distinct URI')
@@ -62,6 +72,12 @@ def ekind(e):
     if type(e) is ValueError:
         return 'value'
     return 'internal:' + n
+
+
+def pretty(kind):
+    """exception name for messages"""
+    return {'value': 'ValueError', 'metainfo': 'MetainfoError', 'bdecode': 'BdecodeError', 'read': 'ReadError',
+            'magnet': 'MagnetError', 'url': 'URLError'}.get(kind, kind.split(':', 1)[-1])
 
 
 # ------------------------------------------------------------------------------------------ findings
@@ -286,6 +302,16 @@ def _one_read(c):
                 obs['dumpnv'] = 'ok'
             except BaseException as e:   # noqa
                 obs['dumpnv'] = ekind(e)
+            try:
+                t.infohash
+                obs['infohash'] = 'ok'
+            except BaseException as e:   # noqa
+                obs['infohash'] = ekind(e)
+            try:
+                t.magnet()
+                obs['magnet'] = 'ok'
+            except BaseException as e:   # noqa
+                obs['magnet'] = ekind(e)
     finally:
         sys.setrecursionlimit(limit0)
     obs['cpu'] = time.process_time() - t0
@@ -300,14 +326,34 @@ def _run_read_chunk(cases):
     return [_one_read(c) for c in cases]
 
 
+def _bmp(v):
+    """no lone surrogates / astral characters anywhere (the JSON transport to the driver is BMP-only)"""
+    if isinstance(v, str):
+        return not any(0xd800 <= ord(ch) <= 0xdfff or ord(ch) > 0xffff for ch in v)
+    if isinstance(v, (list, tuple)):
+        return all(_bmp(x) for x in v)
+    if isinstance(v, dict):
+        return all(_bmp(k) and _bmp(x) for k, x in v.items())
+    return True
+
+
 def _magnet_oracles(uri):
-    o = {'urlparse': None, 'qs': [], 'urls': [], 'ints': []}
+    o = {'urlparse': None, 'qs': [], 'urls': [], 'ints': [], 'pct': []}
     try:
         info = urllib.parse.urlparse(uri.strip(), scheme='magnet', allow_fragments=False)
     except ValueError:
         return o
     o['urlparse'] = [info.scheme, info.query]
     qs = urllib.parse.parse_qs(info.query)
+    # unquote() of every name / value that holds a '%' (after '+' -> ' '), for the modelled parse_qs
+    pct = {}
+    if '%' in info.query:
+        for nv in info.query.split('&'):
+            for part in nv.split('=', 1):
+                part = part.replace('+', ' ')
+                if '%' in part and part not in pct:
+                    pct[part] = urllib.parse.unquote(part)
+    o['pct'] = [[k, v] for k, v in pct.items()]
     o['qs'] = [[k, list(v)] for k, v in qs.items()]
     seen = set()
     for k in ('xs', 'as', 'tr', 'ws'):
@@ -316,7 +362,7 @@ def _magnet_oracles(uri):
                 if w not in seen:
                     seen.add(w)
                     o['urls'].append([w, ref_is_url(w)])
-    for v in qs.get('xl', []):
+    for v in dict.fromkeys(qs.get('xl', [])):
         try:
             o['ints'].append([v, pyval._int_str(int(v))])
         except ValueError:
@@ -459,7 +505,7 @@ def evaluate_read(ctx, drv, cases):
         if o['pieces_depth'] >= 500:
             # regression family of the repaired finding D08i (/repo 3420ff7): compared like every other case
             ctx.dist['deep-pieces(ex-D08i)' + ('/validate' if c['validate'] else '')] += 1
-        I = {k: o[k] for k in ('read', 'validate', 'dump', 'dumpnv') if k in o}
+        I = {k: o[k] for k in ('read', 'validate', 'dump', 'dumpnv', 'infohash', 'magnet') if k in o}
         inside = c['how'] not in ('bytes', 'bytearray') or len(x) <= 10 ** 7
         model = m['model'] if m else None
         hyps = m['hyps'] if m else {}
@@ -476,16 +522,31 @@ def evaluate_read(ctx, drv, cases):
             spec_read = m['spec']['read'] if m else ['ok', 'bdecode', 'metainfo', 'read']
             spec_ret = m['spec']['returned'] if m else ['ok', 'metainfo']
             if I['read'] not in spec_read:
-                ctx.violation(f"read raised {I['read']} (documented: BdecodeError, MetainfoError, ReadError)",
+                ctx.violation(f"read raised {pretty(I['read'])} (documented: BdecodeError, MetainfoError, ReadError)",
                               dict(case, which='read'), expected=spec_read, observed=I, finding_matchers=MATCHERS)
             elif I['read'] == 'ok':
                 if c['validate'] and I['validate'] != 'ok':
                     ctx.violation('torrent returned with validate=True does not pass validate()', case,
                                   expected='validate ok', observed=I, finding_matchers=MATCHERS)
-                for k in ('validate', 'dump', 'dumpnv'):
+                for k in ('validate', 'dump', 'dumpnv', 'infohash'):
                     if I[k] not in spec_ret:
-                        ctx.violation(f'{k}() of a returned torrent raised {I[k]} (allowed: success or MetainfoError)',
+                        ctx.violation(f'{k}{"" if k == "infohash" else "()"} of a returned torrent raised {pretty(I[k])} '
+                                      f'(allowed: success or MetainfoError)',
                                       dict(case, which=k), expected=spec_ret, observed=I, finding_matchers=MATCHERS)
+                # magnet(): infohash first (its error is magnet()'s error), then the name / size / trackers /
+                # webseeds getters and the Magnet constructor.  URLError / TypeError from that tail for metainfo that
+                # validates is C07's open finding D07i (url-list is never validated, a URL may be refused by the
+                # URL class although is_url accepts it): counted, not judged here.  Anything else is a violation.
+                if I['infohash'] != 'ok':
+                    if I['magnet'] != I['infohash']:
+                        ctx.violation(f"magnet() of a returned torrent raised {pretty(I['magnet'])} although infohash raised "
+                                      f"{pretty(I['infohash'])}", dict(case, which='magnet'), expected=[I['infohash']],
+                                      observed=I, finding_matchers=MATCHERS)
+                elif I['magnet'] in ('url', 'internal:TypeError'):
+                    ctx.dist['magnet()-tail:' + I['magnet'] + ' (C07 finding D07i, not judged)'] += 1
+                elif I['magnet'] not in spec_ret:
+                    ctx.violation(f"magnet() of a returned torrent raised {pretty(I['magnet'])} (allowed: success or MetainfoError)",
+                                  dict(case, which='magnet'), expected=spec_ret, observed=I, finding_matchers=MATCHERS)
         # ---- cost (CPU time of read + validate + 2 dumps)
         if o['cpu'] > TIME_C * len(x) + TIME_D:
             ctx.violation(f"CPU time {o['cpu']:.2f}s exceeds {TIME_C}*len+{TIME_D} for {len(x)} bytes", case,
@@ -517,9 +578,23 @@ def evaluate_read(ctx, drv, cases):
                     ctx.corr_break('c08.read/dump', case, model, I)
             else:
                 ctx.dist['enc-order-ambiguous'] += 1
+            # infohash: the frames of its encoder path are not modelled; compared when there is a margin
+            if model['encNeed'] + 10 <= o['encFuel']:
+                if model['infohash'] != I['infohash']:
+                    ctx.corr_break('c08.read/infohash', case, model, I)
+                if hyps.get('files') and model['infohash'] not in m['spec']['returned']:
+                    ctx.machinery_error('model infohash outside {ok, metainfo} although info.files is not a mapping '
+                                        '(contradicts C08_returned_infohash)', case)
             if c['validate'] and model['validate'] != 'ok':
                 ctx.machinery_error('model returned a torrent with validate=True that does not validate '
                                     '(contradicts C08_read_total)', case)
+
+
+def _bucket(n):
+    for b in (0, 1, 10, 100, 999, 1000, 1001, 5000):
+        if n <= b:
+            return '<=%d' % b
+    return '>5000'
 
 
 def evaluate_magnet(ctx, drv, cases):
@@ -528,8 +603,7 @@ def evaluate_magnet(ctx, drv, cases):
     for i, (c, o) in enumerate(zip(cases, obs_all)):
         if o is None or 'oracle' not in o:
             continue
-        s = c['uri'] + json.dumps(o['oracle'])
-        if any(0xd800 <= ord(ch) <= 0xdfff or ord(ch) > 0xffff for ch in s):
+        if not _bmp(c['uri']) or not _bmp(o['oracle']):
             continue
         reqs.append({'op': 'c08.magnet', 'uri': c['uri'], **o['oracle']})
         idx.append(i)
@@ -538,15 +612,17 @@ def evaluate_magnet(ctx, drv, cases):
         if o is None:
             continue
         m = replies.get(i)
-        case = {'kind': c['kind'], 'uri': c['uri'] if len(c['uri']) < 2000 else c['uri'][:500] + '…',
+        case = {'kind': c['kind'], 'uri': c['uri'] if len(c['uri']) <= 20000 else c['uri'][:500] + '…',
                 'len': len(c['uri'])}
+        if 'fields' in c:
+            case['fields'] = c['fields']         # recipe: ugen.magnet_sizes() entry with this kind and number
         up = (o.get('oracle') or {}).get('urlparse')
         ctx.case(key='M' + c['uri'], nontrivial=bool(up and up[0] == 'magnet'), kind=c['kind'])
         ctx.dist['magnet-outcome:' + o['kind']] += 1
         if len(ctx.samples) < 6 and c['kind'] == 'magnet/grammar' and up and up[0] == 'magnet':
             ctx.sample({'case': case, 'impl': o['kind'], 'model': m and m['model']})
         if o['kind'] not in ('ok', 'magnet', 'url'):
-            ctx.violation(f"Magnet.from_string raised {o['kind']} (documented: MagnetError, URLError)", case,
+            ctx.violation(f"Magnet.from_string raised {pretty(o['kind'])} (documented: MagnetError, URLError)", case,
                           expected=['ok', 'magnet', 'url'], observed=o['kind'], finding_matchers=MATCHERS)
         if o['cpu'] > TIME_C * len(c['uri'].encode('utf8', 'surrogatepass')) + TIME_D:
             ctx.violation(f"CPU time {o['cpu']:.2f}s exceeds {TIME_C}*len+{TIME_D}", case,
@@ -555,8 +631,15 @@ def evaluate_magnet(ctx, drv, cases):
             ctx.dist['magnet-impl-only'] += 1
             continue
         model = m['model']
+        ctx.dist['magnet-fields:' + _bucket(m['numFields'])] += 1
+        if not m['qsAgree']:
+            ctx.machinery_error('the Lean model of urllib.parse.parse_qs disagrees with the standard library on this query '
+                                '(Model/QueryString.lean is wrong)', case)
         if m['hyp'] and model['kind'] not in m['spec']:
-            ctx.machinery_error('model magnet outcome outside the documented set (contradicts C08_magnet_total)', case)
+            ctx.machinery_error('model magnet outcome outside the documented set (contradicts C08_magnet_documented)', case)
+        if m['hypOracle'] and m['modelOracleQs'] not in m['spec']:
+            ctx.machinery_error('model magnet outcome (parse_qs as oracle) outside the documented set '
+                                '(contradicts C08_magnet_total)', case)
         I = {'kind': o['kind'], 'infohash': o.get('infohash'), 'xl': o.get('xl')}
         if model != I:
             ctx.corr_break('c08.magnet', case, model, I)
@@ -724,6 +807,11 @@ def cost_checks(ctx):
                 ctx.violation(f'{fam}: no result within 180 s for n={r["n"]}', case, expected='time <= c*len+d',
                               observed='timeout', finding_matchers=MATCHERS)
                 continue
+            doc = ('ok', 'bdecode', 'metainfo', 'read') if fam.startswith('read/') else ('ok', 'magnet', 'url')
+            if r.get('kind') not in doc:
+                ctx.violation(f"{fam} (n={r['n']}, {r['len']} bytes): raised {pretty(str(r.get('kind')))} (documented: "
+                              f"{', '.join(doc[1:])})", dict(case, what='kind', recipe=f'_fam(%r, %d)' % (fam, r['n'])),
+                              expected=list(doc), observed=r.get('kind'), finding_matchers=MATCHERS)
             if r['cpu'] > TIME_C * r['len'] + TIME_D:
                 case['what'] = 'scaling'
                 ctx.violation(f"{fam}: CPU {r['cpu']:.2f}s for {r['len']} bytes exceeds {TIME_C}*len+{TIME_D}", case,
@@ -781,6 +869,10 @@ def per_input_memory(ctx, read_cases, magnet_cases):
             ctx.violation(f'no result within 180 s for an input of {ln} bytes', case, expected='time <= c*len+d',
                           observed='timeout', finding_matchers=MATCHERS)
             continue
+        doc = ('ok', 'bdecode', 'metainfo', 'read', 'value') if isinstance(data, bytes) else ('ok', 'magnet', 'url')
+        if m.get('kind') not in doc and not (m.get('kind') == 'internal:MemoryError' and case.get('maxprefix', 0) >= 10 ** 8):
+            ctx.violation(f"per-input measurement: raised {pretty(str(m.get('kind')))}", dict(case, what='kind'), expected=list(doc),
+                          observed=m.get('kind'), finding_matchers=MATCHERS)
         worst['rss_per_byte'] = max(worst['rss_per_byte'], round(max(0, m['rss'] - RSS_D) / max(ln, 1), 1))
         worst['vm_per_byte'] = max(worst['vm_per_byte'], round(max(0, m['vm'] - VM_D) / max(ln, 1), 1))
         if m['cpu'] > TIME_C * ln + TIME_D:
@@ -884,11 +976,24 @@ def build_read_cases(ctx):
         for V in (True, False):
             cases.append(dict(c, validate=V, how='bytes'))
     for c in ugen.regression_3420ff7():
+        if c['depth'] >= 20000 and not ctx.thorough and (b'd1:ad1:a' in c['x'] or b'd1:ald1:a' in c['x']):
+            # dict nesting 20 000 deep costs the Lean driver 4-12 s per case (quadratic in the model's dict
+            # handling): quick tier checks these against the documented sets only, thorough against the model
+            c = dict(c, modelled=False)
         for V in (True, False):
             cases.append(dict(c, validate=V, how='bytes'))
         if c['depth'] in (1500, 5000):
             cases.append(dict(c, validate=True, how='file'))
             cases.append(dict(c, validate=True, how='stream'))
+    # hostile values (every decoded type, hostile text) in every field validate() or a getter looks at
+    for c in ugen.field_matrix(full_product=ctx.thorough):
+        cases.append(dict(c, validate=True, how='bytes'))
+        k = r.random()
+        if ctx.thorough or k < 0.35:
+            cases.append(dict(c, validate=False, how='bytes'))
+        if k > (0.5 if ctx.thorough else 0.85):
+            cases.append(dict(c, validate=r.random() < 0.7, how=r.choice(['file', 'stream'])))
+    cases += _expand(r, ugen.md5_near_misses(r, ctx.n(600, 20000)), p_validate=0.8)
     cases += _expand(r, ugen.exhaustive_small(6 if ctx.thorough else 4), hows=False)
     # truncation at every offset of a few seed torrents
     from harness.gen import metainfo as gen
@@ -916,6 +1021,7 @@ def build_magnet_cases(ctx):
     r = ctx.rng
     cases = [dict(c, kind='corpus/' + c.get('kind', 'magnet')) for c in _load_corpus(ctx) if 'uri' in c]
     cases += ugen.magnet_fixed()
+    cases += ugen.magnet_sizes(thorough=ctx.thorough)
     cases += ugen.magnet_random(r, ctx.n(8000, 300000))
     return cases
 
@@ -927,11 +1033,12 @@ def run(ctx, drv):
         '2^63-34 and MemoryError above the allocation limit (measured: RLIMIT_AS of the worker minus its address space; '
         'prefixes within a factor 0.5..1.5 of that limit are not compared with the model), int() refuses more than 4300 '
         'digits, RecursionError when decode_dict/encode_dict need more Python frames than recursion limit minus call depth',
-        'datetime.fromtimestamp, urlparse, parse_qs, int() and URL well-formedness are oracles computed by the harness '
-        'with the standard library and passed to the model per case',
-        'validate()/dump() of returned torrents: C08_returned_* are proved relative to the statement '
-        'ValidateDocumented (= C07_validate_no_internal_statement at fs = noPath), which C07 has not proved yet; '
-        'it is evaluated on every case here',
+        'datetime.fromtimestamp, urlparse, int(), unquote() of strings with a "%" and URL well-formedness are oracles computed '
+        'by the harness with the standard library and passed to the model per case; parse_qs is modelled in Lean '
+        '(Model/QueryString.lean) and compared with urllib.parse.parse_qs on every magnet case',
+        'validate()/dump()/infohash of returned torrents: C08_returned_* use C07_validate_only_metainfo_error (imported, proved) '
+        'under filesNotMapping (finding D07f); magnet() of a returned torrent is judged against {ok, MetainfoError} except for '
+        'URLError/TypeError from its getter tail after infohash succeeded (C07 finding D07i: counted, not judged)',
         'time and memory of CPython are measured (CPU seconds, peak RSS, peak address space in a forked child), not proved; '
         'claimed bound: %g s/byte + %g s, RSS %d B/byte + %d MiB' % (TIME_C, TIME_D, RSS_C, RSS_D >> 20),
         'byte strings longer than MAX_TORRENT_FILE_SIZE are outside the property ("up to the read limit"): '
@@ -940,7 +1047,8 @@ def run(ctx, drv):
         'only (the JSON transport to the Lean driver is BMP-only)',
     ]
     ctx.notes['trusted_base'] = ['C08_read_steps counts steps of the model, CPU time of CPython is measured',
-                                 'urllib.parse / datetime / int() behaviour enters as oracle values per case']
+                                 'urlparse / unquote / datetime / int() behaviour enters as oracle values per case; '
+                                 'the Lean model of parse_qs is validated against urllib.parse.parse_qs on every magnet case']
     phase = ctx.notes.setdefault('phase_s', {})
     t0 = time.time()
     rc = build_read_cases(ctx)
@@ -994,7 +1102,11 @@ def search(ctx, drv):
 def replay(ctx, drv, rp):
     case = rp['case']
     if 'uri' in case:
-        c = {'kind': 'replay', 'uri': case['uri']}
+        uri = case['uri']
+        if uri.endswith('…') and 'fields' in case:
+            uri = next((c['uri'] for c in ugen.magnet_sizes(thorough=True)
+                        if c['kind'] == case['kind'] and c.get('fields') == case['fields']), uri)
+        c = {'kind': 'replay', 'uri': uri}
         evaluate_magnet(ctx, drv, [c])
     elif 'x' in case:
         c = {'kind': 'replay', 'x': bytes.fromhex(case['x']), 'validate': case.get('validate', True),
